@@ -429,6 +429,7 @@ class Runner:
                 close = self._noise_close(array_leaves(out), array_leaves(base))
                 if close:
                     res.probes["observer_equal_only_to_1e-6"] += 1
+                    res.ok("C11", "observer_free_equal")
                 else:
                     # A 1-ulp difference can flip one sampled action (probability ~1e-7 per draw) and the runs then
                     # diverge macroscopically without any semantic influence of the observer.  Such flips are
